@@ -138,9 +138,10 @@ class C14(Check):
             "indices 0..m; then EVERY k < m is used as crash point: stop after evaluation k by the limit mechanism, apply the fault kind drawn for "
             "(configuration, k) from {continue, save+continue, save+crash+restore, torn/short/enospc/lost save + continue live, two-stage stop, "
             "continuation through a new driver call handed the old container, restore in a fresh interpreter (thorough)}; a quarter of the "
-            "first legs ask for re-evaluation at their end; run to the final limit and compare structure, scheme, result and point count with the twin. "
+            "first legs ask for re-evaluation at their end; at a quarter of the crash points another adaptive object of any strategy is built and run in "
+            "the same interpreter while the run is stopped (foreign activity); run to the final limit and compare structure, scheme, result and point count with the twin. "
             "A state is (configuration class, crash point, fault kind, final structure); distinct_nontrivial counts distinct such tuples")
-    expected_probes = ["crash_point", "restored_equals_saved", "strategy_dimension_wise", "strategy_dimension_wise_other_grid", "strategy_extend_split",
+    expected_probes = ["crash_point", "restored_equals_saved", "foreign_activity_dimension_wise", "foreign_activity_extend_split", "foreign_activity_cell", "strategy_dimension_wise", "strategy_dimension_wise_other_grid", "strategy_extend_split",
                        "strategy_cell", "strategy_dimension_wise_uq", "strategy_dimension_wise_de"]
     assumptions = ["pickle has no integrity check and no property promises one: bit flips inside a successfully written file are not injected",
                    "a failed save or a failed restore must fail loudly and leave the live instance untouched"]
@@ -436,6 +437,12 @@ class C14(Check):
         ctx.fault("stop@k")
         ctx.ev("crash_point", k, kind, [int(x) for x in r1[6]])
         what = "crash point %d (%s)" % (k, kind)
+        if H(rk, "foreign_activity", k) < 0.25:
+            # while this run is stopped the process is not idle: another adaptive object (of any of the three strategies, on its own
+            # integrand) is built and run in the same interpreter. Nothing it does may reach the stopped instance, the file or the
+            # continuation - state kept on classes or modules instead of instances would
+            self.foreign_activity(rk, k, ctx)
+            sig["foreign_activity"] = True
         sa = sim.sa
         path = "mem://checkpoint" if cfg.get("reuse_path") else "mem://c14-%d" % k
         a, b = cfg["a"], cfg["b"]
@@ -552,6 +559,40 @@ class C14(Check):
         # to the rounding the solves amplify (same bound as the cache-transparency check uses)
         compare(ctx, sig, twin, got, what, skip=skip, rtol=1e-8 if st == "dimension_wise_de" else None)
         ctx.state((st, k, kind, json.dumps(got["structure"])[:2000]))
+
+    def foreign_activity(self, rk, k, ctx):
+        r = stream(rk, "foreign%d" % k)
+        kind = r.choice(["dimension_wise", "extend_split", "cell"])
+        if kind == "dimension_wise":
+            fcfg = DS.gen_cfg(r, "quick", dims=(1, 2, 2, 3))
+            fcfg["max_intervals"] = 10 ** 6
+        elif kind == "extend_split":
+            fcfg = ES.gen_cfg(r, "quick")
+            fcfg["max_leaves"] = 10 ** 6
+            if fcfg["lmin"] == fcfg["lmax"]:
+                fcfg["automatic"] = False
+        else:
+            fcfg = ES.gen_cell_cfg(r, "quick")
+            fcfg["max_leaves"] = 10 ** 6
+        fcfg.update(strategy=kind, use_epoch=False, max_points=10 ** 6, estimator=r.choice(["keyed", "real"]), clock_jumps=False)
+        saved_sig = getattr(ctx, "exc_sig", None)
+        cls = {"dimension_wise": DS.DimwiseSim, "cell": ES.CellSim}.get(kind, ES.ExtendSplitSim)
+        try:
+            fsim = cls(fcfg, rk + "|foreign%d" % k, ctx, [])
+            fsim.eval_cap = 25
+            fsim.build()
+            with seams.quiet():
+                fsim.perform(tol=-1.0, max_evaluations=r.choice([10, 30, 60]))
+        except (DS.StopRun, Excluded):
+            pass
+        except Exception as e:
+            if getattr(e, "harness", False):
+                raise
+            # whatever the foreign run itself suffers (its configuration may sit in a known finding) is not this check's subject
+            ctx.probe("foreign_activity_raised")
+        finally:
+            ctx.exc_sig = saved_sig
+        ctx.fault("foreign_activity"); ctx.probe("foreign_activity_" + kind)
 
     def child(self, cfg, rk, data, final, st, interp=True):
         req = {"bytes": base64.b64encode(data).decode(), "rk": rk, "final": final, "tol": cfg.get("tols", [-1.0, -1.0])[1], "strategy": st, "a": cfg["a"], "b": cfg["b"], "npts": 5, "interp": bool(interp)}
